@@ -1370,6 +1370,9 @@ def method(*keys):
 
 @method(('list', 'append'), ('deque', 'append'))
 def _append(I, ctx, recv, c, heap, args, kwargs, node):
+    if isinstance(c, Choice) and all(isinstance(a, TailSeq) for _, a in c.alts):
+        ctx.put(recv, Choice(tuple((g, TailSeq(a.prefix, a.items + (args[0],))) for g, a in c.alts)))
+        return None
     if isinstance(c, TailSeq):
         ctx.put(recv, TailSeq(c.prefix, c.items + (args[0],)))
         return None
